@@ -545,7 +545,7 @@ func (s *State) step(w *Worker, t *Thread) {
 		fr.pc++
 	case *ssa.MakeChan:
 		c := int(s.concretize(w, s.operand(fr, in.Size), "chan size"))
-		if s.opts.ChanCap > 0 && c > s.opts.ChanCap {
+		if s.opts.ChanCap > 0 && c >= 100 { // the async logger's buffer (BufferSize >= 100 is enforced by Start)
 			c = s.opts.ChanCap
 		}
 		id := s.alloc(&Object{kind: KChan, capa: c})
